@@ -3,13 +3,14 @@
 (* the specification's streaming reader, one record per state.  The harness *)
 (* only splits the text into lines (sequences of character codes).          *)
 (* Files[i] = [key, lines, base [hi, lo] (address of the code section),     *)
-(*             code (its bytes), written [ok, exc], small (BOOLEAN)]        *)
+(*             code (its bytes), hgiven (a header argument was passed),     *)
+(*             header (its bytes), written [ok, exc], small (BOOLEAN)]      *)
 (* Each clause of the property is an invariant of its own; the verdicts on  *)
 (* the whole file are taken in separate judgement states (ph = 1..3).       *)
 EXTENDS SRec, Json, IOUtils
 Files == JsonDeserialize(IOEnv.TRACE_FILE)
 NChunks == 16
-NJudge == 3
+NJudge == 4
 Exp == [k \in 1..Len(Files) |-> ExpOf(<<Files[k].base.hi, Files[k].base.lo>>, Files[k].code)]
 VARIABLES chunk, i, l, ph, cur, rd
 vars == <<chunk, i, l, ph, cur, rd>>
@@ -43,8 +44,9 @@ AtStart == i > 0 /\ l = 0 /\ ph = 0
 Domain == AtStart => /\ IsByteSeq(Files[i].code)
                      /\ Files[i].base.hi \in 0..(H3 - 1) /\ Files[i].base.lo \in 0..(LoMod - 1)
                      /\ AddrLe(AddrPlus(<<Files[i].base.hi, Files[i].base.lo>>, Len(Files[i].code), LoMod), Top)
-\* write_srecord completed
-Written == AtStart => Files[i].written.ok
+\* write_srecord completed; refusing a header text that does not fit into one
+\* record is not a written file (no file, no claim)
+Written == AtStart => Files[i].written.ok \/ (Files[i].hgiven /\ Len(Files[i].header) > MaxData(0))
 \* per record
 RecordWellFormed == rd.ev # "bad"          \* syntax, type, count, checksum
 DataIsCode       == rd.ev # "foreign"      \* a data record carries the object's code bytes at the denoted addresses
@@ -56,6 +58,8 @@ NothingAfterTermination == rd.ev # "after"
 Final(k) == i > 0 /\ ph = k /\ Files[i].written.ok
 Terminated  == Final(1) => rd.term
 AllCovered  == Final(2) => CoveredExactly(rd, Exp[i])
+\* the header text handed to the writer is what the file's S0 records carry
+HeaderCarried == (Final(4) /\ Files[i].hgiven) => rd.hdr = Files[i].header
 \* second opinion: a file the streaming reader found to be an exact image of the code must
 \* decode to it with the declarative decoder as well (cell sets; small files only)
 DecodesToCode == (Final(3) /\ Files[i].small /\ Clean(rd) /\ CoveredExactly(rd, Exp[i])) =>
